@@ -24,7 +24,12 @@ def sweep_history(prop, seed, agg, opts):
     base = generate(prop, seed, profile)
     if prop == "C18":
         return sweep_clock(base, agg, opts)
-    base["knobs"]["clock"] = base["knobs"]["clock"]
+    return sweep_base(base, seed, agg, opts)
+
+
+def sweep_base(base, seed, agg, opts):
+    """crash-point / fault-position / zombie-schedule sweep of one fault-free base history (C19)"""
+    from checks.runner import run_record
     w = run_record(base, mut_trace=True)
     agg.add_world(w, tag="sweep-base")
     if w.violation or w.harness:
@@ -198,3 +203,41 @@ def smallscope_record(index, max_len=3):
         "parallel": bool(par), "allow_missing": True, "api": "object", "clock": dict(ck), "atime": "relatime",
         "listing": "sorted", "sched": {"policy": "uniform"} if par else {"policy": "none"}, "chunk": 4096, "bufsize": 8192,
         "evict_on_startup": False}, "ops": ops, "faults": [], "crash": None, "clock_events": []}
+
+
+# ---------------------------------------------------------------- small scope (C19)
+SMALL19_KEYS = [
+    {"scheme": "sim", "res": "r0", "comment": "", "pp": False, "val": True},
+    {"scheme": "sim", "res": "r1", "comment": "", "pp": True, "val": False},
+    {"scheme": "file", "res": "r1", "comment": "c1", "pp": False, "val": False},
+    {"scheme": "https", "res": "r0", "comment": "c2", "pp": True, "val": True},
+]
+SMALL19_OPS = [
+    {"op": "GET", "keys": [0]}, {"op": "GET", "keys": [1]}, {"op": "GET", "keys": [2, 0]}, {"op": "GET", "keys": [3, 1, 0]},
+    {"op": "GET", "keys": [1, 3]}, {"op": "REMOVE", "key": 0}, {"op": "REOPEN", "size": None, "evict": True},
+]
+SMALL19_LIMITS = [450, 5000]
+
+
+def smallscope19_bases(max_len=2):
+    import itertools
+    out = []
+    for length in range(1, max_len + 1):
+        for seq in itertools.product(range(len(SMALL19_OPS)), repeat=length):
+            if not any(SMALL19_OPS[j]["op"] == "GET" for j in seq):
+                continue
+            for lim in SMALL19_LIMITS:
+                for allow in (True, False):
+                    ops = []
+                    for i, j in enumerate(seq):
+                        o = dict(SMALL19_OPS[j])
+                        o["id"] = i
+                        o["dt"] = 10**6
+                        ops.append(o)
+                    out.append({"property": "C19", "seed": 778, "knobs": {
+                        "keys": [dict(k) for k in SMALL19_KEYS], "res_sizes": {"r0": 300, "r1": 200}, "max_bytes": lim,
+                        "size_class": "small", "parallel": False, "allow_missing": allow, "api": "object",
+                        "clock": {"policy": "fine", "gran": 1}, "atime": "relatime", "listing": "sorted",
+                        "sched": {"policy": "none"}, "chunk": 128, "bufsize": 8192, "evict_on_startup": False},
+                        "ops": ops, "faults": [], "crash": None, "clock_events": []})
+    return out
